@@ -795,12 +795,14 @@ impl StaticsArena {
         annotations.sort_unstable();
         annotations.dedup();
 
-        let normalized = annotations
-            .iter()
-            .map(|annotation| {
-                self.normalized_at(*annotation).cloned().expect("top annotation was not normalized")
+        // An annotation that is still an unsolved hole (the check is about to be
+        // rejected for it) has no normalized classifier to retain.
+        let (annotations, normalized) = annotations
+            .into_iter()
+            .filter_map(|annotation| {
+                self.normalized_at(annotation).cloned().map(|normalized| (annotation, normalized))
             })
-            .collect();
+            .unzip();
         self.annotation_norms = NormalizedAnnotations::with_parallel(annotations, normalized);
     }
 
